@@ -174,6 +174,23 @@ func (sh *Shared) buildIntrinsics() {
 		return args[1]
 	}
 	m[v+"NoopCancel"] = func(fr *frame, args []value) value { return nil }
+	// LoopLimit(fn, n): from now on, an activation of fn (short name as in the report's
+	// Funcs keys, e.g. "(*app.App).findBestStreamFrom") that enters any one of its basic
+	// blocks more than n times is a termination violation "termination@fn" (n <= 0 clears).
+	m[v+"LoopLimit"] = func(fr *frame, args []value) value {
+		p := fr.i.path
+		name := funcShort(args[0].(string))
+		n := int(asInt64(fr.conc(args[1], "looplimit.n")))
+		if p.loopLimits == nil {
+			p.loopLimits = map[string]int{}
+		}
+		if n <= 0 {
+			delete(p.loopLimits, name)
+		} else {
+			p.loopLimits[name] = n
+		}
+		return nil
+	}
 	m[v+"GTIDString"] = func(fr *frame, args []value) value {
 		switch b := args[0].(type) {
 		case uint64:
